@@ -15,14 +15,26 @@ from fractions import Fraction
 from typing import Dict, List, Optional, Tuple
 
 from .model import ClassInfo, FuncInfo, Model, Module
-from .norm import Poly, Rat
+from .norm import Poly, Rat, srepr
 
 MAX_PATHS = 4000
 MAX_DEPTH = 7
 
 
+from . import cover as _cover
+
+
 class Unreadable(Exception):
     pass
+
+
+class BudgetExceeded(Unreadable):
+    """The path budget ran out inside `func` (a function with very many paths, e.g. TickMath's 20 mask tests).  The
+    comparison rules retry with that function summarised as an opaque pure call on both sides."""
+
+    def __init__(self, msg, func):
+        super().__init__(msg)
+        self.func = func
 
 
 class NeedSplit(Exception):
@@ -107,7 +119,7 @@ class Cond:
                 return (self.op, min(k1, k2, key=repr))
         if isinstance(self.x, Rat):
             return (self.op, self.x.key())
-        return (self.op, repr(self.x))
+        return (self.op, srepr(self.x))
 
     def __eq__(self, o):
         return isinstance(o, Cond) and self.key() == o.key()
@@ -116,7 +128,7 @@ class Cond:
         return hash(self.key())
 
     def __repr__(self):
-        return f"[{self.x!r} {self.op} 0]" if self.op in ("<", "<=", "==", "!=") else f"[{self.op} {self.x!r}]"
+        return f"[{self.x!r} {self.op} 0]" if self.op in ("<", "<=", "==", "!=") else f"[{self.op} {srepr(self.x)}]"
 
 
 def cmp_cond(op, a: Rat, b: Rat) -> Cond:
@@ -155,7 +167,7 @@ def as_term(v):
         return ("tuple",) + tuple(as_term(i) for i in v.items)
     if isinstance(v, (str, int, bool, type(None), Fraction)):
         return ("lit", v)
-    return ("obj", repr(v))
+    return ("obj", srepr(v))
 
 
 BUILTIN_IDENTITY = {"Decimal", "float", "to_decimal", "UnitDecimal", "object_to_decimal", "Fraction"}
@@ -169,6 +181,8 @@ class Evaluator:
         self.max_paths = max_paths
         self.int_is_floor = int_is_floor
         self.inlined: List[str] = []
+        self._carried_lists = set()
+        self._loop_depth = 0
         self.unknown_calls: Dict[str, int] = {}
         self.extern = extern or {}
         self.assume: frozenset = frozenset()   # conditions assumed true (loop-invariant splits)
@@ -191,6 +205,7 @@ class Evaluator:
             else:
                 env[p] = sym(p)
         ctx = Ctx(f, depth)
+        _cover.deep(f)
         outs = []
         for (conds, env2, ret) in self.exec_block(f.node.body, [(frozenset(), env, None)], ctx):
             outs.append((conds, ret if ret is not None else NONE))
@@ -211,6 +226,7 @@ class Evaluator:
             else:
                 env[p] = sym(p)
         ctx = Ctx(f, 0, selfcls or f.cls)
+        _cover.deep(f)
         try:
             out = self.exec_block(f.node.body, [(frozenset(), env, None)], ctx)
             return [(c, e, r if r is not None else NONE) for c, e, r in out]
@@ -333,6 +349,7 @@ class Evaluator:
                     dv = self._default(f, p_) if p_ in f.defaults else None
                     fenv[p_] = dv if dv is not None else sym(p_)
             self.inlined.append(f.qualname)
+            _cover.deep(f)
             sub = Ctx(f, ctx.depth + 1, fv.selfcls or ctx.selfcls, fx=True)
             for (c2, e2, r) in self.exec_block(f.node.body, [(c, fenv, None)], sub):
                 env_after = dict(env)
@@ -369,7 +386,7 @@ class Evaluator:
                 new.extend(self.exec_stmt(st, conds, env, ctx))
             states = new
             if len(states) > self.max_paths:
-                raise Unreadable(f"path budget exceeded in {ctx.f.qualname}")
+                raise BudgetExceeded(f"path budget exceeded in {ctx.f.qualname}", ctx.f.name)
         return states
 
     def exec_stmt(self, st, conds, env, ctx):
@@ -387,7 +404,7 @@ class Evaluator:
             # loop this makes the list a loop-carried local, so a later loop over it is tied to what was appended)
             if isinstance(st.value, ast.Call) and isinstance(st.value.func, ast.Attribute) and st.value.func.attr == "append" \
                     and len(st.value.args) == 1 and not st.value.keywords and isinstance(st.value.func.value, ast.Name) \
-                    and type(env.get(st.value.func.value.id)) is Tup:
+                    and (type(env.get(st.value.func.value.id)) is Tup or self._is_carried_list(env.get(st.value.func.value.id))):
                 lname = st.value.func.value.id
                 cur = env[lname]
                 if any(v is cur for k, v in env.items() if k != lname):
@@ -395,7 +412,12 @@ class Evaluator:
                 out = []
                 for c2, v in self.ev(st.value.args[0], env, ctx):
                     e2 = dict(env)
-                    e2[lname] = Tup(list(cur.items) + [v])
+                    if type(cur) is Tup:
+                        e2[lname] = Tup(list(cur.items) + [v])
+                    else:
+                        nv = Rat.atom(("appended", as_term(cur), as_term(v)))
+                        self._carried_lists.add(nv.key())
+                        e2[lname] = nv
                     out.append((conds | c2, e2, None))
                 return out
             # side-effect-free expression statements (calls to require are handled)
@@ -555,6 +577,10 @@ class Evaluator:
             return [(conds, env, Lit("<continue>"))]
         if isinstance(st, ast.For):
             return self.exec_for(st, conds, env, ctx)
+        if isinstance(st, ast.While):
+            if st.orelse:
+                raise Unreadable("while-else")
+            return self._generic_loop(("while",), st.body, conds, env, dict(env), [], ctx, test=st.test)
         if isinstance(st, (ast.Import, ast.ImportFrom)):
             return [(conds, env, None)]
         if isinstance(st, (ast.With,)) and self.effects_mode:
@@ -567,7 +593,18 @@ class Evaluator:
                     self.bind(it.optional_vars, Rat.atom(("ctx", as_term(alts[0][1]))), e2, ctx)
             return self.exec_block(st.body, [(conds, e2, None)], ctx)
         if isinstance(st, ast.Try) and self.effects_mode:
-            # normal flow only: handlers run on exceptions, which are not modelled in effect traces
+            # normal flow only: handlers run on exceptions, which are not modelled in effect traces; WHICH exceptions the
+            # block survives is part of the ledger (a marker effect naming the swallowed / re-raised exception classes)
+            if ctx.fx and st.handlers:
+                hs = []
+                for h in st.handlers:
+                    names = [ast.unparse(e) for e in (h.type.elts if isinstance(h.type, ast.Tuple) else [h.type])] if h.type is not None else ["BaseException"]
+                    swallow = not any(isinstance(x, ast.Raise) for b in h.body for x in ast.walk(b))
+                    if swallow:      # a handler that re-raises is transparent for the normal flow
+                        hs.append(tuple(sorted(names)))
+                if hs:
+                    env = dict(env)
+                    self._fx(env, ("try-survives", tuple(sorted(hs))))
             out = self.exec_block(st.body, [(conds, env, None)], ctx)
             if st.orelse:
                 out = self.exec_block(st.orelse, out, ctx)
@@ -748,32 +785,8 @@ class Evaluator:
                 else:
                     out.append((conds | cc, env, None))
             return out
-        if self.effects_mode and ctx.fx and self._has_effects(st.body):
-            inner_env = dict(lv_env)
-            inner_env["$fx"] = ()
-            inner = self.exec_block(list(st.body), [(frozenset(), inner_env, None)], ctx)
-            rows = []
-            changed = {}
-            for c, e, r in inner:
-                fx = e.get("$fx", ())
-                # locals of the enclosing function that the body updates (accumulators, running variables);
-                # canonical in the variable's name: identified by the values it takes
-                for nm, v in sorted(e.items(), key=lambda kv: kv[0]):
-                    if nm.startswith("$") or nm.startswith("@") or nm in names:
-                        continue
-                    if nm in env and not _same_value(env[nm], v):
-                        fx = fx + (("local", as_term(env[nm]), as_term(v)),)
-                        changed.setdefault(nm, set()).add((frozenset(c), as_term(v)))
-                # a trailing `continue` is the same as falling off the end of the body
-                rows.append((frozenset(c), fx, repr(r) if r is not None and not (isinstance(r, Lit) and r.v == "<continue>") else None))
-            # canonical in the branching structure: rows with the same effects merge over complementary guards
-            rows = [(c, p[0], p[1]) for c, p in _merge_rows([(c, (fx, r)) for c, fx, r in rows])]
-            block = frozenset(rows)
-            e2 = dict(env)
-            for nm, vals in changed.items():
-                e2[nm] = Rat.atom(("afterloop", it_term, as_term(env[nm]), frozenset(_merge_rows(sorted(vals, key=repr)))))
-            self._fx(e2, ("foreach", it_term, block))
-            return [(conds, e2, None)]
+        if (self.effects_mode and ctx.fx and self._has_effects(st.body)) or self._has_carried_stores(st.body, env, names):
+            return self._generic_loop(it_term, st.body, conds, env, lv_env, names, ctx)
         body = list(st.body)
         filt = frozenset()
         if len(body) == 1 and isinstance(body[0], ast.If) and not body[0].orelse and not (
@@ -845,6 +858,152 @@ class Evaluator:
                 e2[b.value.func.value.id] = Seq(it_term, vs[0][1], filt)
             else:
                 raise Unreadable(f"loop body statement {ast.unparse(b)[:50]}")
+        return [(conds, e2, None)]
+
+    def _is_carried_list(self, v) -> bool:
+        return isinstance(v, Rat) and v.key() in self._carried_lists
+
+    def _stored_names(self, stmts):
+        """Names (in order of first store) that `stmts` (re)bind or update in place through append."""
+        out = []
+
+        def add(n):
+            if n not in out:
+                out.append(n)
+
+        def tgt(t):
+            if isinstance(t, ast.Name):
+                add(t.id)
+            elif isinstance(t, (ast.Tuple, ast.List)):
+                for e in t.elts:
+                    tgt(e)
+            elif isinstance(t, ast.Starred):
+                tgt(t.value)
+
+        class V(ast.NodeVisitor):
+            def visit_FunctionDef(self, n):
+                add(n.name)
+
+            def visit_Lambda(self, n):
+                return
+
+            def visit_Assign(self, n):
+                self.generic_visit(n.value)
+                for t in n.targets:
+                    tgt(t)
+
+            def visit_AnnAssign(self, n):
+                if n.value is not None:
+                    self.generic_visit(n.value)
+                    tgt(n.target)
+
+            def visit_AugAssign(self, n):
+                self.generic_visit(n.value)
+                tgt(n.target)
+
+            def visit_For(self, n):
+                tgt(n.target)
+                self.generic_visit(n)
+
+            def visit_NamedExpr(self, n):
+                tgt(n.target)
+                self.generic_visit(n.value)
+
+            def visit_Call(self, n):
+                if isinstance(n.func, ast.Attribute) and n.func.attr in ("append", "extend", "sort", "insert", "pop", "remove", "clear") \
+                        and isinstance(n.func.value, ast.Name):
+                    add(n.func.value.id)
+                self.generic_visit(n)
+
+        v = V()
+        for st in stmts:
+            v.visit(st)
+        return out
+
+    def _has_carried_stores(self, body, env, loop_names) -> bool:
+        """Does the loop body rebind a variable of the enclosing scope in a way the accumulation idioms do not cover
+        (conditional last-wins / arg-min selections, running values)?"""
+        for st in body:
+            for n in ast.walk(st):
+                tg = None
+                if isinstance(n, ast.Assign) and len(n.targets) == 1:
+                    tg = n.targets[0]
+                    v = n.value
+                    if isinstance(tg, ast.Name) and isinstance(v, ast.BinOp) and isinstance(v.op, ast.Add) and (
+                            (isinstance(v.left, ast.Name) and v.left.id == tg.id) or (isinstance(v.right, ast.Name) and v.right.id == tg.id)) \
+                            and n in body:
+                        continue        # acc = acc + e at the top level of the body: accumulation idiom
+                elif isinstance(n, ast.AnnAssign) and n.value is not None:
+                    tg = n.target
+                elif isinstance(n, ast.AugAssign) and not (isinstance(n.op, ast.Add) and (n in body or any(
+                        isinstance(b, ast.If) and not b.orelse and n in b.body for b in body))):
+                    tg = n.target
+                if tg is None:
+                    continue
+                for e in (tg.elts if isinstance(tg, (ast.Tuple, ast.List)) else [tg]):
+                    if isinstance(e, ast.Name) and e.id in env and e.id not in loop_names and not e.id.startswith("$"):
+                        return True
+        return False
+
+    def _generic_loop(self, kind_term, body, conds, env, lv_env, loop_names, ctx, test=None):
+        """A loop with loop-carried state, as a canonical one-iteration transfer relation.  Every variable of the
+        enclosing scope that the body rebinds (or a local list it appends to) enters the iteration as a symbolic
+        `carried` value (numbered in order of first store: independent of the variables' names); the body is evaluated
+        once; each path yields its guards, its effects, the new values of the carried variables and its exit (fall
+        through / continue / break / return).  The fingerprint (source, initial values, loop test, rows) names the loop;
+        after the loop each carried variable is `afterloop(fingerprint, k)`.  Two loops with equal fingerprints compute
+        the same function of the same inputs."""
+        stored = [n for n in self._stored_names(body) if n in env and n not in loop_names and not n.startswith("$") and not n.startswith("@")]
+        if test is not None:
+            # variables read by the loop test are part of the carried state when the body changes them (already covered)
+            pass
+        inner_env = dict(lv_env)
+        inits = []
+        for i, nm in enumerate(stored):
+            inits.append(as_term(env[nm]))
+            cv = Rat.atom(("carried", self._loop_depth, i))
+            if type(env[nm]) is Tup:
+                self._carried_lists.add(cv.key())
+            inner_env[nm] = cv
+        test_fp = None
+        if test is not None:
+            alts = self.cond_alts(test, inner_env, ctx)
+            test_fp = tuple(sorted((tuple(sorted(map(repr, c0))), tuple(sorted((t, tuple(sorted(map(repr, cc)))) for t, cc in cv_)))
+                                   for c0, cv_ in alts))
+        inner_env["$fx"] = ()
+        rec = Ctx(ctx.f, ctx.depth, ctx.selfcls, fx=True) if not ctx.fx else ctx
+        was = self.effects_mode
+        # break / continue are path outcomes inside the block
+        self.effects_mode = True
+        self._loop_depth += 1
+        try:
+            inner = self.exec_block(list(body), [(frozenset(), inner_env, None)], rec)
+        finally:
+            self.effects_mode = was
+            self._loop_depth -= 1
+        rows = []
+        for c, e, r in inner:
+            fx = e.get("$fx", ())
+            for i, nm in enumerate(stored):
+                if nm in e and not _same_value(inner_env[nm], e[nm]):
+                    fx = fx + (("local", i, as_term(e[nm])),)
+            rr = None if r is None or (isinstance(r, Lit) and r.v == "<continue>") else srepr(r)
+            rows.append((frozenset(c), (fx, rr)))
+        # deterministic text: guards as sorted tuples, rows sorted (terms are compared through their repr)
+        rows = [(tuple(sorted(c, key=srepr)), p[0], p[1]) for c, p in _merge_rows(rows)]
+        rows.sort(key=srepr)
+        block = tuple(rows)
+        src = ("loop", kind_term, tuple(inits), test_fp)
+        e2 = dict(env)
+        # what the carried variables become depends on the guards, on their updates and on the exits - not on the other
+        # effects of the body (return values of effectful calls appear as atoms inside the updates)
+        upd = tuple(sorted(((tuple(sorted(c, key=srepr)), p[0], p[1]) for c, p in _merge_rows(
+            [(frozenset(c), (tuple(x for x in fx if isinstance(x, tuple) and x and x[0] == "local"), rr)) for c, fx, rr in rows])), key=srepr))
+        for i, nm in enumerate(stored):
+            if any(any(isinstance(x, tuple) and x and x[0] == "local" and x[1] == i for x in fx) for _, fx, _ in rows):
+                e2[nm] = Rat.atom(("afterloop", src, upd, i))
+        if self.effects_mode and ctx.fx:
+            self._fx(e2, ("foreach", src, block))
         return [(conds, e2, None)]
 
     def _target_term(self, t, env, ctx):
@@ -965,7 +1124,7 @@ class Evaluator:
                         opn = type(op).__name__
                         neg = opn in POS
                         lt, rt = as_term(l), as_term(r)
-                        if POS.get(opn, opn) in ("Is", "Eq") and repr(lt) > repr(rt):
+                        if POS.get(opn, opn) in ("Is", "Eq") and srepr(lt) > srepr(rt):
                             lt, rt = rt, lt  # symmetric operators: canonical operand order
                         c = Cond("true", ("cmp", POS.get(opn, opn), lt, rt))
                         sp = self._split(c)
@@ -989,10 +1148,49 @@ class Evaluator:
                 out.append((c1, [(bool(v.v), frozenset())]))
             elif isinstance(v, Rat) and v.is_const():
                 out.append((c1, [(v.const_value() != 0, frozenset())]))
+            elif self._always_truthy(v, ctx):
+                # an instance of a class that defines neither __bool__ nor __len__ (the state dataclasses) is always true
+                out.append((c1, [(True, frozenset())]))
             else:
                 c = Cond("true", as_term(v))
                 out.append((c1, self._split(c)))
         return out
+
+    def _atom_type(self, a, ctx):
+        """Static type of a state access path (self.F, self.F[k], self.F[k].g) from the model's field types."""
+        from .model import ClassInfo
+        if not isinstance(a, tuple) or not a:
+            return None
+        if a[0] == "sym":
+            return ctx.selfcls if a[1] == "self" else None
+        if a[0] == "attr" and len(a) == 3:
+            bt = self._atom_type(a[1], ctx)
+            if isinstance(bt, ClassInfo):
+                return self.model.field_type(bt, a[2])
+            return None
+        if a[0] == "idx" and len(a) == 3:
+            bt = self._atom_type(a[1], ctx)
+            if isinstance(bt, tuple) and bt and bt[0] in ("map", "seq") and len(bt) == 2:
+                return bt[1]
+            return None
+        return None
+
+    def _always_truthy(self, v, ctx) -> bool:
+        from .model import ClassInfo
+        a = v.single_atom() if isinstance(v, Rat) else None
+        if a is None:
+            return False
+        t = self._atom_type(a, ctx)
+        if not isinstance(t, ClassInfo):
+            return False
+        if not t.is_dataclass:
+            return False
+        for k in self.model.mro(t):
+            if "__bool__" in k.methods or "__len__" in k.methods:
+                return False
+            if any(not (isinstance(b, ast.Name) and b.id == "object") for b in k.base_exprs) and len(k.bases) != len(k.base_exprs):
+                return False    # a base class outside the repository (dict, NamedTuple, ...) may define truthiness
+        return True
 
     def _split(self, c: "Cond"):
         if c in self.assume:
@@ -1035,7 +1233,7 @@ class Evaluator:
             for c1, b in self.ev(node.value, env, ctx):
                 for c2, i in self.ev(node.slice, env, ctx):
                     if isinstance(b, Obj) and b.cls == "dict":
-                        kt = repr(as_term(i))
+                        kt = srepr(as_term(i))
                         if kt in b.fields:
                             out.append((c1 | c2, b.fields[kt]))
                             continue
@@ -1164,7 +1362,7 @@ class Evaluator:
                 ks = self.ev(k, env, ctx)
                 if len(ks) != 1 or ks[0][0]:
                     raise Unreadable("piecewise dict key")
-                kt = repr(as_term(ks[0][1]))
+                kt = srepr(as_term(ks[0][1]))
                 nxt = []
                 for c, d in alts:
                     for c2, vv in self.ev(v, env, ctx):
@@ -1602,9 +1800,13 @@ class Evaluator:
         init = self.model.find_method(cls, "__init__")
         if init is not None and not cls.is_dataclass:
             names = init.params[1:]
+        elif init is None and not cls.is_dataclass and not names:
+            new = self.model.find_method(cls, "__new__")
+            if new is not None:
+                names = new.params[1:]      # e.g. UnitDecimal.__new__(cls, number, unit, output_format)
         fields = {}
-        for n, v in zip(names, pos):
-            fields[n] = v
+        for i, v in enumerate(pos):
+            fields[names[i] if i < len(names) else f"_{i}"] = v     # never drop an argument
         fields.update(kw)
         return Obj(cls.name, fields)
 
@@ -1641,6 +1843,7 @@ class Evaluator:
             else:
                 env[p] = sym(p)
         ctx = Ctx(f, depth, selfcls)
+        _cover.deep(f)
         outs = []
         for (conds, env2, ret) in self.exec_block(f.node.body, [(frozenset(), env, None)], ctx):
             outs.append((conds, ret if ret is not None else NONE))
@@ -1695,7 +1898,7 @@ class Str:
         return hash(self.parts)
 
     def __repr__(self):
-        return "f" + repr(self.parts)
+        return "f" + srepr(self.parts)
 
 
 class Seq:
@@ -1711,7 +1914,7 @@ class Seq:
         return hash((self.it, self.elt, self.filt))
 
     def __repr__(self):
-        return f"[{self.elt!r} for _ in {self.it!r}" + (f" if {set(self.filt)!r}" if self.filt else "") + "]"
+        return f"[{self.elt!r} for _ in {srepr(self.it)}" + (f" if {srepr(self.filt)}" if self.filt else "") + "]"
 
 
 class BoolElt:
@@ -1744,7 +1947,7 @@ class Obj:
         return hash((self.cls, tuple(sorted(self.fields.items(), key=lambda kv: kv[0]))))
 
     def __repr__(self):
-        return f"{self.cls}({', '.join(f'{k}={v!r}' for k, v in self.fields.items())})"
+        return f"{self.cls}({', '.join(f'{k}={srepr(v)}' for k, v in sorted(self.fields.items()))})"
 
 
 class ClsRef:
@@ -1827,7 +2030,7 @@ def _eq_const(c: "Cond"):
             if isinstance(b, tuple) and len(b) == 2 and b[0] in ("obj", "lit") and not (isinstance(a, tuple) and len(a) == 2 and a[0] in ("obj", "lit")):
                 if b[0] == "obj" and not (isinstance(b[1], str) and (b[1][:1] in "'\"" or b[1] in ("None", "True", "False") or b[1][:1].isdigit())):
                     continue
-                return c.op == "true", repr(a), repr(b)
+                return c.op == "true", srepr(a), srepr(b)
     return None
 
 
@@ -1884,7 +2087,7 @@ def floor_of(x: Rat) -> Rat:
 def abs_of(x: Rat) -> Rat:
     if x.is_const():
         return Rat.const(abs(x.const_value()))
-    k1, k2 = repr(x), repr(-x)
+    k1, k2 = srepr(x), srepr(-x)
     return Rat.atom(("abs", x if k1 <= k2 else -x))
 
 
@@ -1948,20 +2151,132 @@ def canon_paths(paths):
     return items
 
 
-def _merge_rows(rows):
-    """[(guards, payload)] -> the same case distinction with rows of equal payload merged whenever their guards differ in
-    exactly one complementary condition (repeated to a fixpoint), so that the shape of the branching does not matter."""
+def _cond_var(c: "Cond"):
+    """(variable, polarity): a condition and its negation are the two polarities of one boolean variable."""
+    try:
+        n = c.negate()
+    except Unreadable:
+        return c, True
+    return (c, True) if srepr(c.key()) <= srepr(n.key()) else (n, False)
+
+
+def _prime_implicants(on: set, dc: set, nvars: int):
+    """Quine-McCluskey: all prime implicants of ON u DC that cover a minterm of ON.  Implicants are (mask, value) pairs:
+    variables in `mask` are fixed to the bits of `value`.  The set of all prime implicants is canonical."""
+    full = (1 << nvars) - 1
+    cur = {(full, m) for m in on | dc}
+    primes = set()
+    while cur:
+        nxt = set()
+        used = set()
+        lst = sorted(cur)
+        by_mask = {}
+        for mk, v in lst:
+            by_mask.setdefault(mk, []).append(v)
+        for mk, vals in by_mask.items():
+            vs = set(vals)
+            for v in vals:
+                for bit in range(nvars):
+                    bb = 1 << bit
+                    if not mk & bb or v & bb:
+                        continue
+                    w = v | bb
+                    if w in vs:
+                        nxt.add((mk & ~bb, v))
+                        used.add((mk, v))
+                        used.add((mk, w))
+        primes |= cur - used
+        cur = nxt
+    out = set()
+    for mk, v in primes:
+        if any((m & mk) == v for m in on):
+            out.add((mk, v))
+    return out
+
+
+def _merge_rows(rows, max_vars: int = 10):
+    """[(guards, payload)] -> a canonical description of the same case distinction: per payload, the set of ALL prime
+    implicants of its guard function (minterms the guards contradict on are don't-cares).  The branching structure of the
+    code (nesting, order of `and` / `or` operands, elif chains) therefore does not matter.  Falls back to pairwise
+    merging over complementary guards when there are too many distinct conditions."""
     items = []
     for c, p in rows:
         c = _simplify_conds(frozenset(c))
         if c is not None:
             items.append((c, p))
+    vars_ = []
+    index = {}
+    enc = []
+    for c, p in items:
+        lits = []
+        for cond in c:
+            v, pol = _cond_var(cond)
+            k = v.key()
+            if k not in index:
+                index[k] = len(vars_)
+                vars_.append(v)
+            lits.append((index[k], pol))
+        enc.append((lits, p))
+    n = len(vars_)
+    if 0 < n <= max_vars and len(items) > 1:
+        feasible = {}
+
+        def is_feasible(m):
+            r = feasible.get(m)
+            if r is None:
+                cs = frozenset(vars_[i] if (m >> i) & 1 else vars_[i].negate() for i in range(n))
+                r = not _contradict(cs)
+                feasible[m] = r
+            return r
+
+        payloads = []
+        on_sets = []
+        for lits, p in enc:
+            fixed_mask = 0
+            fixed_val = 0
+            bad = False
+            for i, pol in lits:
+                bit = 1 << i
+                if fixed_mask & bit and bool(fixed_val & bit) != pol:
+                    bad = True
+                fixed_mask |= bit
+                if pol:
+                    fixed_val |= bit
+            if bad:
+                continue
+            free = [i for i in range(n) if not fixed_mask & (1 << i)]
+            ms = set()
+            for comb in range(1 << len(free)):
+                m = fixed_val
+                for j, i in enumerate(free):
+                    if (comb >> j) & 1:
+                        m |= 1 << i
+                ms.add(m)
+            try:
+                k = payloads.index(p)
+                on_sets[k] |= ms
+            except ValueError:
+                payloads.append(p)
+                on_sets.append(ms)
+        allm = set(range(1 << n))
+        dc = {m for m in allm if not is_feasible(m)}
+        out = []
+        for p, on in zip(payloads, on_sets):
+            on = on - dc
+            if not on:
+                continue
+            for mk, v in _prime_implicants(on, dc, n):
+                cs = frozenset(vars_[i] if (v >> i) & 1 else vars_[i].negate() for i in range(n) if (mk >> i) & 1)
+                cs = _simplify_conds(cs)
+                if cs is not None:
+                    out.append((cs, p))
+        return out
     changed = True
     while changed:
         changed = False
-        n = len(items)
-        for i in range(n):
-            for j in range(i + 1, n):
+        nn = len(items)
+        for i in range(nn):
+            for j in range(i + 1, nn):
                 ci, pi = items[i]
                 cj, pj = items[j]
                 if pi != pj:
@@ -2129,9 +2444,54 @@ def pairwise_conflict(paths_a, paths_b, same_outcome):
     return None
 
 
+FX_STRUCT: Dict[str, object] = {}     # repr(effect) -> effect, filled by rules/formula._sig
+
+
+def _known_empty(conds):
+    """Terms T such that the guards imply len(T) == 0 (len is a non-negative integer)."""
+    out = []
+    for c in conds:
+        if c.op not in ("<", "<=", "==") or not isinstance(c.x, Rat) or not c.x.d.is_const():
+            continue
+        n = c.x.n
+        lens = [m for m in n.t if m != ()]
+        if len(lens) != 1 or len(lens[0]) != 1 or lens[0][0][1] != 1:
+            continue
+        at = lens[0][0][0]
+        if not (isinstance(at, tuple) and len(at) == 2 and at[0] == "len"):
+            continue
+        a = n.t[lens[0]] / c.x.d.const_value()
+        b = n.const_value() / c.x.d.const_value()
+        if a <= 0:
+            continue
+        bound = -b / a          # len  op  bound
+        if (c.op == "<" and bound <= 1) or (c.op == "<=" and bound < 1) or (c.op == "==" and bound == 0):
+            out.append(at[1])
+    return out
+
+
+def _mentions(term, t) -> bool:
+    if term == t:
+        return True
+    if isinstance(term, (tuple, frozenset)):
+        return any(_mentions(x, t) for x in term)
+    return False
+
+
 def _simplify_outcome(o, conds):
     if isinstance(o, tuple) and len(o) == 2 and isinstance(o[0], frozenset):
-        return (o[0], simplify_under(o[1], conds))      # (effects signature, result): effects are compared as text
+        fx = o[0]
+        empty = _known_empty(conds)
+        if empty:
+            # a per-element block over a collection the guards prove empty runs zero times
+            keep = []
+            for item in fx:
+                e = FX_STRUCT.get(item[0][4:] if item[0][:3].isdigit() else item[0])
+                if isinstance(e, tuple) and e and e[0] == "foreach" and any(_mentions(e[1], t) for t in empty):
+                    continue
+                keep.append(item)
+            fx = frozenset(keep)
+        return (fx, simplify_under(o[1], conds))      # (effects signature, result): effects are compared as text
     return simplify_under(o, conds)
 
 
